@@ -646,3 +646,358 @@ Proof.
   rewrite skipn_app, Nat.sub_diag, skipn_all, skipn_O. cbn [app].
   split; [apply steps_exact; assumption|apply IH; assumption].
 Qed.
+
+(* ================================================================== through the reader model *)
+(* one record of the writer, everything the reader argument needs *)
+Lemma record_exact cf ts prev r p' o' :
+  mav cf = false -> NoDup (map t_sample ts) ->
+  Forall (fun t => Forall (fun s => length (snd s) = 2%nat) (t_super t)) ts ->
+  Forall wf_call (calls r) ->
+  record_step cf fix_rules ts prev r = Ok (p', o') ->
+  let sk := skip cf ts prev r in
+  pos o' = pos r /\ alt_lens o' = alt_lens r /\ ref_len o' = ref_len r /\ chrom o' = chrom r /\
+  length (calls o') = length (calls r) /\
+  p' = (match sk with Some _ => prev | None => Some (pos r) end) /\
+  (sk = None -> tag cf = TagPS -> ps_key o' = true) /\
+  forall t c', In t ts -> nth_error (calls o') (t_sample t) = Some c' ->
+    stmts_exact (tag cf) c' (match sk with Some _ => None | None => written_t cf t (pos r) end).
+Proof.
+  intros Hmav ND Hdip Hw1 Er. cbn zeta.
+  destruct (record_step_spec _ _ _ _ _ _ _ ND Er) as [[S1 [S2 [S3 [S4 [S5 [S6 S7]]]]]] [L [_ [Hp' Hc]]]].
+  repeat split; auto.
+  - intros Esk Et. unfold record_step in Er. rewrite Esk in Er.
+    destruct (update_targets _ _ _ _ _); cbn [bind] in Er; [|discriminate].
+    inversion Er. subst. cbn. rewrite Et.
+    destruct ts as [|t0 ts0]; [|reflexivity].
+    destruct (skip_none_phased _ _ _ _ Esk) as [t [[] _]].
+  - intros t c' Ht En.
+    assert (Hx : exists c, nth_error (calls r) (t_sample t) = Some c).
+    { destruct (nth_error (calls r) (t_sample t)) eqn:E; [eauto|].
+      apply nth_error_None in E. rewrite <- L in E. apply nth_error_None in E. congruence. }
+    destruct Hx as [c Hx]. specialize (Hc _ _ Hx). rewrite (target_of_in _ _ ND Ht) in Hc.
+    assert (Hwc : wf_call c).
+    { rewrite Forall_forall in Hw1. apply Hw1. eapply nth_error_In; eauto. }
+    rewrite Forall_forall in Hdip. specialize (Hdip t Ht).
+    destruct (skip cf ts prev r) as [why|] eqn:Esk.
+    + rewrite Hc in En. inversion En. subst c'. apply (stmts_exact_none (tag cf) c Hwc).
+    + destruct Hc as [c2 [Hu Hn]]. rewrite Hn in En. inversion En. subst c2.
+      eapply fix_call_exact; eauto. apply Hwc.
+Qed.
+
+(* the phase the reader assigns to one call *)
+Definition call_phase (k : bool) (c : call) (ph : option dphase) : Prop :=
+  exists p1 p2, decode_HP fix_guard c = Ok p1 /\ decode_PS k c = Ok p2 /\
+                ph = match p2 with Some _ => p2 | None => p1 end.
+
+Lemma decode_call_spec k det c det' ph :
+  decode_call fix_guard k det c = Ok (det', ph) -> call_phase k c ph.
+Proof.
+  unfold decode_call, call_phase.
+  destruct (decode_HP fix_guard c) as [p1|e]; cbn [bind]; [|discriminate].
+  match goal with |- context [bind ?x _] => destruct x as [det1|e] end; cbn [bind]; [|discriminate].
+  destruct (decode_PS k c) as [p2|e]; cbn [bind]; [|discriminate].
+  intros H. exists p1, p2. split; [reflexivity|]. split; [reflexivity|].
+  destruct p2 as [d|].
+  - destruct det1 as [kk|]; [destruct (pkind_eqb kk KPS)|]; inversion H; reflexivity.
+  - inversion H. reflexivity.
+Qed.
+
+Lemma decode_calls_spec k det cs det' phs :
+  decode_calls fix_guard k det cs = Ok (det', phs) ->
+  length phs = length cs /\
+  forall i c, nth_error cs i = Some c -> exists ph, nth_error phs i = Some ph /\ call_phase k c ph.
+Proof.
+  revert det det' phs. induction cs as [|c cs IH]; intros det det' phs H; cbn [decode_calls] in H.
+  - inversion H. split; [reflexivity|]. intros [|i] c Hc; discriminate.
+  - destruct (decode_call fix_guard k det c) as [[d1 ph]|e] eqn:Ec; cbn [bind] in H; [|discriminate].
+    cbn [fst snd] in H.
+    destruct (decode_calls fix_guard k d1 cs) as [[d2 phs']|e] eqn:Er; cbn [bind] in H; [|discriminate].
+    inversion H. subst. destruct (IH _ _ _ Er) as [L Hn]. split; [cbn; congruence|].
+    intros [|i] c0 Hc0; cbn in Hc0.
+    + inversion Hc0. subst. exists ph. split; [reflexivity|]. eapply decode_call_spec; eauto.
+    + cbn. apply Hn. exact Hc0.
+Qed.
+
+Lemma phase_matches_lift q e : phase_matches (lift q e) e = true.
+Proof.
+  destruct e as [[b ph]|]; cbn; [|reflexivity].
+  rewrite Z.eqb_refl. cbn. apply all2_refl. intros; apply allele_eqb_refl.
+Qed.
+
+Definition rskip (osnv mv : bool) (r : vrec) : bool :=
+  match alt_lens r with
+  | [] => true
+  | _ => (negb (unph (alt_lens r)) && negb mv)
+         || (osnv && negb ((ref_len r =? 1) && forallb (fun a => a =? 1) (alt_lens r)))
+  end.
+
+Lemma read_rows_cons g osnv mv prev det r t :
+  read_rows g osnv mv prev det (r :: t) =
+  if rskip osnv mv r then read_rows g osnv mv prev det t
+  else if match prev with Some q => q >? pos r | None => false end then Err EUnsorted
+  else if match prev with Some q => q =? pos r | None => false end then read_rows g osnv mv prev det t
+  else bind (decode_calls g (ps_key r) det (calls r)) (fun d =>
+       bind (read_rows g osnv mv (Some (pos r)) (fst d) t) (fun rows =>
+         Ok (mkRow (pos r) (map (fun c => genotype_code (gt c)) (calls r)) (snd d) :: rows))).
+Proof. reflexivity. Qed.
+
+Lemma skip_reader cf ts prev r why :
+  mav cf = false -> rskip (only_snvs cf) (mav cf) r = false -> skip cf ts prev r = Some why ->
+  why = Duplicate \/ why = Unphased.
+Proof.
+  intros Hm Hr. unfold rskip in Hr. unfold skip, is_snv. rewrite Hm in *.
+  destruct (alt_lens r) as [|a [|b l]] eqn:Ea; [discriminate| |cbn in Hr; discriminate].
+  cbn in Hr. cbn [unph length Nat.leb negb andb].
+  destruct (match prev with Some q => pos r =? q | None => false end); [intros H; inversion H; auto|].
+  rewrite andb_true_r in Hr. rewrite Hr.
+  destruct (negb (existsb _ ts)); intros H; inversion H; auto.
+Qed.
+
+Lemma skip_none_reader cf ts prev r :
+  mav cf = false -> skip cf ts prev r = None -> rskip (only_snvs cf) (mav cf) r = false.
+Proof.
+  intros Hm. unfold rskip, skip, is_snv. rewrite Hm.
+  destruct (alt_lens r) as [|a [|b l]] eqn:Ea; [discriminate| |cbn; discriminate].
+  cbn [unph length Nat.leb negb andb orb forallb].
+  destruct (match prev with Some q => pos r =? q | None => false end); [discriminate|].
+  rewrite andb_true_r.
+  destruct (only_snvs cf && negb ((ref_len r =? 1) && (a =? 1))); [discriminate|reflexivity].
+Qed.
+
+Lemma skip_duplicate_prev cf ts prev r :
+  skip cf ts prev r = Some Duplicate -> prev = Some (pos r).
+Proof.
+  unfold skip. destruct (alt_lens r); [discriminate|].
+  destruct (negb (unph (z :: l)) && negb (mav cf)); [discriminate|].
+  destruct prev as [q|].
+  - destruct (pos r =? q) eqn:E; [intros _; apply Z.eqb_eq in E; congruence|].
+    destruct (only_snvs cf && negb (is_snv r)); [discriminate|].
+    destruct (negb (existsb _ ts)); discriminate.
+  - destruct (only_snvs cf && negb (is_snv r)); [discriminate|].
+    destruct (negb (existsb _ ts)); discriminate.
+Qed.
+
+Lemma skip_unphased_written cf ts prev r t :
+  NoDup (map t_sample ts) -> skip cf ts prev r = Some Unphased -> In t ts ->
+  (t_sample t < length (calls r))%nat -> written_t cf t (pos r) = None.
+Proof.
+  intros ND Hs Ht Hl.
+  assert (Hex : existsb (fun t => (t_sample t <? length (calls r))%nat && phased_in cf (pos r) t) ts = false).
+  { unfold skip in Hs. destruct (alt_lens r); [discriminate|].
+    destruct (negb (unph (z :: l)) && negb (mav cf)); [discriminate|].
+    destruct (match prev with Some q => pos r =? q | None => false end); [discriminate|].
+    destruct (only_snvs cf && negb (is_snv r)); [discriminate|].
+    destruct (existsb _ ts); [discriminate|reflexivity]. }
+  assert (Hp : phased_in cf (pos r) t = false).
+  { destruct (phased_in cf (pos r) t) eqn:E; [|reflexivity].
+    assert (existsb (fun t => (t_sample t <? length (calls r))%nat && phased_in cf (pos r) t) ts = true); [|congruence].
+    apply existsb_exists. exists t. split; [exact Ht|]. rewrite E. apply Nat.ltb_lt in Hl. rewrite Hl. reflexivity. }
+  unfold written_t. unfold phased_in in Hp.
+  destruct (phase_at cf t (pos r)); [|reflexivity].
+  destruct (dict_get (pos r) (t_comp t)); [discriminate|reflexivity].
+Qed.
+
+Definition rinv (pw pr : option Z) : Prop :=
+  match pw with None => True | Some q => exists q', pr = Some q' /\ q <= q' end.
+
+Lemma row_phase_matches tg k c ph e :
+  stmts_exact tg c e -> (tg = TagPS -> e <> None -> k = true) -> call_phase k c ph ->
+  phase_matches ph e = true.
+Proof.
+  intros Hs Hk [p1 [p2 [H1 [H2 ->]]]]. destruct tg; cbn in Hs; destruct Hs as [A B].
+  - rewrite B in H1. inversion H1. subst p1.
+    destruct e as [[b l]|] eqn:Ee.
+    + rewrite (Hk eq_refl) in H2 by discriminate. rewrite A in H2. inversion H2. subst p2. cbn [lift option_map].
+      apply (phase_matches_lift None (Some (b, l))).
+    + cbn in A. rewrite (decode_PS_none_k _ k _ A) in H2. inversion H2. reflexivity.
+  - rewrite A in H1. inversion H1. subst p1.
+    rewrite (decode_PS_none_k _ k _ B) in H2. inversion H2. subst p2. apply phase_matches_lift.
+Qed.
+
+Lemma steps_read cf ts pw pr det run o rows :
+  mav cf = false -> NoDup (map t_sample ts) ->
+  Forall (fun t => Forall (fun s => length (snd s) = 2%nat) (t_super t)) ts ->
+  Forall (fun r => Forall wf_call (calls r)) run ->
+  Forall (fun r => Forall (fun t => (t_sample t < length (calls r))%nat) ts) run ->
+  steps cf fix_rules ts pw run = Ok o ->
+  read_rows fix_guard (only_snvs cf) (mav cf) pr det o = Ok rows ->
+  rinv pw pr -> table_decodes cf ts rows = true.
+Proof.
+  intros Hmav ND Hdip. revert pw pr det o rows.
+  induction run as [|r run IH]; intros pw pr det o rows Hwf Hrg H Hr Hinv; cbn [steps] in H.
+  - inversion H. subst. cbn in Hr. inversion Hr. reflexivity.
+  - destruct (record_step cf fix_rules ts pw r) as [[p' o']|e] eqn:Er; cbn [bind] in H; [|discriminate].
+    cbn [fst snd] in H. destruct (steps cf fix_rules ts p' run) as [out'|e] eqn:Es; cbn [bind] in H; [|discriminate].
+    inversion H. subst o. clear H.
+    inversion Hwf as [|? ? Hw1 Hw2]. inversion Hrg as [|? ? Hr1 Hr2]. subst.
+    destruct (record_exact _ _ _ _ _ _ Hmav ND Hdip Hw1 Er) as [X1 [X2 [X3 [_ [XL [Xp [Xk Xs]]]]]]].
+    destruct (sync_end_spec (end_decl cf) o') as [_ [E2 [_ [E4 [E5 [E6 [E7 _]]]]]]].
+    set (o1 := sync_end (end_decl cf) o') in *.
+    assert (Hrs : rskip (only_snvs cf) (mav cf) o1 = rskip (only_snvs cf) (mav cf) r).
+    { unfold rskip. rewrite E6, E7, X2, X3. reflexivity. }
+    assert (Hpos : pos o1 = pos r) by congruence.
+    rewrite read_rows_cons in Hr. rewrite Hrs, Hpos in Hr.
+    destruct (rskip (only_snvs cf) (mav cf) r) eqn:Ersk.
+    + (* not a row; the writer skipped it as well *)
+      assert (Hsk : skip cf ts pw r <> None).
+      { intros Hn. rewrite (skip_none_reader _ _ _ _ Hmav Hn) in Ersk. discriminate. }
+      destruct (skip cf ts pw r) as [why|]; [|congruence]. subst p'.
+      eapply IH; eauto.
+    + destruct (match pr with Some q => q >? pos r | None => false end) eqn:Egt; [discriminate|].
+      destruct (match pr with Some q => q =? pos r | None => false end) eqn:Eeq.
+      * (* duplicate position for the reader *)
+        eapply IH; eauto. subst p'.
+        destruct (skip cf ts pw r); [exact Hinv|].
+        destruct pr as [q|]; [|discriminate]. apply Z.eqb_eq in Eeq. subst q.
+        exists (pos r). split; [reflexivity|lia].
+      * (* a row *)
+        destruct (decode_calls fix_guard (ps_key o1) det (calls o1)) as [[d1 phs]|e] eqn:Ed; cbn [bind] in Hr; [|discriminate].
+        cbn [fst snd] in Hr.
+        destruct (read_rows fix_guard (only_snvs cf) (mav cf) (Some (pos r)) d1 out') as [rows'|e] eqn:Er'; cbn [bind] in Hr; [|discriminate].
+        inversion Hr. subst rows. clear Hr.
+        assert (Hlt : match pr with Some q => q < pos r | None => True end).
+        { destruct pr as [q|]; [|exact I]. rewrite Z.gtb_ltb in Egt. apply Z.ltb_ge in Egt. apply Z.eqb_neq in Eeq. lia. }
+        cbn [table_decodes forallb]. apply andb_true_intro. split.
+        -- cbn [row_pos row_phases]. apply forallb_forall. intros t Ht.
+           destruct (decode_calls_spec _ _ _ _ _ Ed) as [Lp Hn].
+           rewrite Forall_forall in Hr1. specialize (Hr1 t Ht).
+           assert (Hc : exists c', nth_error (calls o1) (t_sample t) = Some c').
+           { destruct (nth_error (calls o1) (t_sample t)) eqn:E; [eauto|].
+             apply nth_error_None in E. rewrite E4, XL in E. lia. }
+           destruct Hc as [c' Hc]. destruct (Hn _ _ Hc) as [ph [Hph Hcp]].
+           rewrite (nth_error_nth _ _ None Hph).
+           rewrite (written_target _ _ _ _ _ (target_of_in _ _ ND Ht)).
+           rewrite E4 in Hc. specialize (Xs t c' Ht Hc).
+           rewrite E5 in Hcp.
+           destruct (skip cf ts pw r) as [why|] eqn:Esk.
+           ++ destruct (skip_reader _ _ _ _ _ Hmav Ersk Esk) as [-> | ->].
+              ** exfalso. apply skip_duplicate_prev in Esk. subst pw. destruct Hinv as [q' [-> Hq]]. lia.
+              ** rewrite (skip_unphased_written _ _ _ _ _ ND Esk Ht Hr1).
+                 apply (row_phase_matches (tag cf) (ps_key o') c' ph _ Xs); [|exact Hcp]. intros _ Hne. congruence.
+           ++ apply (row_phase_matches (tag cf) (ps_key o') c' ph _ Xs); [|exact Hcp]. intros Et _. apply Xk; auto.
+        -- eapply IH; eauto. subst p'.
+           destruct (skip cf ts pw r).
+           ++ destruct pw as [q|]; [|exact I]. destruct Hinv as [q' [-> Hq]]. exists (pos r). split; [reflexivity|lia].
+           ++ exists (pos r). split; [reflexivity|lia].
+Qed.
+
+(* ------------------------------------------------------------------ whole files *)
+Lemma take_run_all c l run tl : take_run c l = (run, tl) -> Forall (fun r => chrom r = c) run.
+Proof.
+  revert run tl. induction l as [|r l IH]; intros run tl H; cbn in H.
+  - inversion H. constructor.
+  - destruct (chrom r =? c) eqn:E.
+    + destruct (take_run c l) as [a b] eqn:Et. inversion H. subst. constructor; [apply Z.eqb_eq; exact E|eapply IH; eauto].
+    + inversion H. constructor.
+Qed.
+
+Lemma take_run_app_all c a b :
+  Forall (fun r => chrom r = c) a -> match b with [] => True | x :: _ => chrom x <> c end ->
+  take_run c (a ++ b) = (a, b).
+Proof.
+  intros Fa Hb. induction Fa as [|x a Hx Fa IH]; cbn.
+  - destruct b as [|y b]; [reflexivity|]. cbn. apply Z.eqb_neq in Hb. rewrite Hb. reflexivity.
+  - rewrite Hx, Z.eqb_refl, IH. reflexivity.
+Qed.
+
+Lemma steps_chroms cf ru ts prev run o :
+  steps cf ru ts prev run = Ok o -> map chrom o = map chrom run.
+Proof.
+  intros H. apply steps_forall2 in H. induction H as [|r x run o Hs F IH]; [reflexivity|].
+  cbn. rewrite IH. f_equal. destruct (step_rel_site _ _ _ _ _ Hs) as [Hc _]. exact Hc.
+Qed.
+
+Lemma simple_chroms cf ru plan l out :
+  map fst plan = runs l -> simple cf ru plan l = Ok out -> map chrom out = map chrom l.
+Proof.
+  intros Hp H. apply simple_forall2_any in H. rewrite (annotate_fst _ _ Hp) in H. clear Hp.
+  induction H as [|r o l' out' Hex F IH]; [reflexivity|].
+  destruct Hex as [ts Hs]. cbn. rewrite IH. f_equal. destruct (step_rel_site _ _ _ _ _ Hs) as [Hc _]. exact Hc.
+Qed.
+
+Lemma read_file_aux_nil fuel g osnv mv : read_file_aux fuel g osnv mv [] = Ok [].
+Proof. destruct fuel; reflexivity. Qed.
+
+Definition targets_exist (plan : list (token * list target)) (input : list vrec) : Prop :=
+  forall c ts r t, In (c, ts) plan -> In r input -> In t ts -> (t_sample t < length (calls r))%nat.
+
+Lemma plan_targets_other c ts more c' :
+  c' <> c -> plan_targets ((c, ts) :: more) c' = plan_targets more c'.
+Proof. intros H. unfold plan_targets. cbn. apply Z.eqb_neq in H. rewrite Z.eqb_sym, H. reflexivity. Qed.
+
+Lemma simple_read cf plan l out fuel tabs :
+  mav cf = false -> plan_wf plan -> plan_diploid plan -> wf_input l -> targets_exist plan l ->
+  NoDup (map fst plan) -> map fst plan = runs l ->
+  simple cf fix_rules plan l = Ok out -> (length out <= fuel)%nat ->
+  read_file_aux fuel fix_guard (only_snvs cf) (mav cf) out = Ok tabs ->
+  map fst tabs = map fst plan /\ file_decodes cf plan tabs = true.
+Proof.
+  intros Hmav. revert l out fuel tabs.
+  induction plan as [|[c ts] more IH]; intros l out fuel tabs W D Wf Tx NDp Hp H Hfuel Hr.
+  - cbn in H. inversion H. subst out. rewrite read_file_aux_nil in Hr. inversion Hr. auto.
+  - cbn [map fst] in Hp. destruct l as [|r t]; [discriminate|].
+    destruct (runs_head r t) as [cs Hcs]. rewrite Hcs in Hp. inversion Hp as [[Hc Hmore]]. subst c.
+    cbn [simple] in H. destruct (take_run (chrom r) (r :: t)) as [run tl] eqn:Et.
+    assert (Hruns : runs (r :: t) = chrom r :: runs tl /\ match tl with [] => True | x :: _ => chrom x <> chrom r end).
+    { cbn [take_run] in Et. rewrite Z.eqb_refl in Et. destruct (take_run (chrom r) t) as [a b] eqn:E.
+      inversion Et. subst. apply (runs_cons_take _ _ _ _ E). }
+    destruct Hruns as [Hruns Htl]. rewrite Hruns in Hcs. inversion Hcs as [Hcs']. rewrite <- Hcs' in Hmore.
+    destruct (steps cf fix_rules ts None run) as [o|e] eqn:Es; cbn [bind] in H; [|discriminate].
+    destruct (simple cf fix_rules more tl) as [out'|e] eqn:Em; cbn [bind] in H; [|discriminate].
+    inversion H. subst out. clear H.
+    inversion W as [|? ? W1 W2]. inversion D as [|? ? D1 D2]. subst.
+    cbn [map fst] in NDp. inversion NDp as [|? ? Hnin NDm]. subst.
+    destruct (Forall_take_run _ _ _ _ _ Et Wf) as [F1 F2].
+    pose proof (take_run_app _ _ _ _ Et) as Happ.
+    assert (Hrun1 : exists run0, run = r :: run0).
+    { cbn [take_run] in Et. rewrite Z.eqb_refl in Et. destruct (take_run (chrom r) t). inversion Et. eauto. }
+    destruct Hrun1 as [run0 ->].
+    pose proof (steps_chroms _ _ _ _ _ _ Es) as Hco.
+    pose proof (simple_chroms _ _ _ _ _ Hmore Em) as Hco'.
+    destruct o as [|o1 orest]; [discriminate|].
+    assert (Fo : Forall (fun x => chrom x = chrom r) (o1 :: orest)).
+    { pose proof (take_run_all _ _ _ _ Et) as Fr.
+      assert (Fm : Forall (fun z => z = chrom r) (map chrom (o1 :: orest))).
+      { rewrite Hco. clear -Fr. induction Fr; cbn; constructor; auto. }
+      clear -Fm. induction (o1 :: orest) as [|x xs IHx]; [constructor|].
+      cbn in Fm. inversion Fm. subst. constructor; auto. }
+    assert (Hhead : match out' with [] => True | x :: _ => chrom x <> chrom r end).
+    { destruct out' as [|x out'']; [exact I|]. destruct tl as [|y tl']; [discriminate|].
+      cbn in Hco'. inversion Hco'. congruence. }
+    destruct fuel as [|f]; [cbn in Hfuel; lia|].
+    cbn [app] in Hr. cbn [read_file_aux] in Hr.
+    inversion Fo as [|? ? Ho1 Forest]. subst.
+    rewrite Ho1 in Hr. rewrite (take_run_app_all _ _ _ Forest Hhead) in Hr.
+    destruct (read_rows fix_guard (only_snvs cf) (mav cf) None None (o1 :: orest)) as [rows|e] eqn:Err; cbn [bind] in Hr; [|discriminate].
+    destruct (read_file_aux f fix_guard (only_snvs cf) (mav cf) out') as [mt|e] eqn:Erm; cbn [bind] in Hr; [|discriminate].
+    inversion Hr. subst tabs. clear Hr.
+    assert (Hrange : Forall (fun x => Forall (fun t0 => (t_sample t0 < length (calls x))%nat) ts) (r :: run0)).
+    { apply Forall_forall. intros x Hx. apply Forall_forall. intros t0 Ht0.
+      apply (Tx (chrom r) ts x t0); [left; reflexivity| |exact Ht0].
+      rewrite Happ. apply in_or_app. left. exact Hx. }
+    pose proof (steps_read _ _ _ _ _ _ _ _ Hmav W1 D1 F1 Hrange Es Err I) as Htab.
+    assert (Tx' : targets_exist more tl).
+    { intros c' ts' x t0 Hin Hx Ht0. apply (Tx c' ts' x t0); [right; exact Hin| |exact Ht0].
+      rewrite Happ. apply in_or_app. right. exact Hx. }
+    assert (Hf' : (length out' <= f)%nat).
+    { rewrite app_length in Hfuel. cbn in Hfuel. lia. }
+    destruct (IH _ _ _ _ W2 D2 F2 Tx' NDm Hmore Em Hf' Erm) as [Hmt Hfd].
+    split; [cbn; rewrite Hmt; reflexivity|].
+    unfold file_decodes in *. cbn [forallb fst snd]. apply andb_true_intro. split.
+    + unfold plan_targets. cbn. rewrite Z.eqb_refl. cbn. exact Htab.
+    + rewrite forallb_forall in Hfd. apply forallb_forall. intros tb Htb.
+      rewrite plan_targets_other; [apply Hfd; exact Htb|].
+      intros Heq. apply Hnin. rewrite <- Hmt, <- Heq. apply in_map. exact Htb.
+Qed.
+
+(* decoding a written file returns exactly what was written (code as it is now) *)
+Theorem decode_written_file cf plan input out tabs :
+  mav cf = false -> plan_wf plan -> plan_diploid plan -> wf_input input -> targets_exist plan input ->
+  NoDup (map fst plan) -> map fst plan = runs input ->
+  phase_writer cf fix_rules plan input = Ok out ->
+  read_file fix_guard (only_snvs cf) (mav cf) out = Ok tabs ->
+  map fst tabs = map fst plan /\ file_decodes cf plan tabs = true.
+Proof.
+  intros Hmav W D Wf Tx ND Hp H Hr. rewrite phase_writer_simple in H by exact Hp.
+  eapply simple_read; eauto.
+Qed.
